@@ -59,6 +59,18 @@ CHECKS = {
         "Trusted: numpy tensordot; areas are judged by C05; dyadic-rational data make float64 sums exact.",
         "DESIGN.md section 6, C06",
     ),
+    "C10": (
+        "property-based testing (Hypothesis): generated operation programs run in lock-step against plain xarray (differential oracle) + grid-attachment invariants",
+        "Exploration: programs of 1-6 operations drawn from a catalogue of ~60 xarray operations (arithmetic, comparisons, numpy ufuncs, where/clip/"
+        "fillna/astype, keyword / positional / combined indexing, reductions, cumulative and rolling operations, transpose, rename, coordinate "
+        "assignment, expand/squeeze, shift/diff, concat, shallow and deep copy) interleaved with uxarray's isel on grid dimensions, integrate, "
+        "gradient, difference, topological_mean, remap and get_dual, applied to face-, node- or edge-centred UxDataArrays and to a plain "
+        "xarray.DataArray shadow. After every step: the result is a UxDataArray, attached to the same grid (deep copy: a different, equal "
+        "grid), values/dims/dtype/name identical to plain xarray, and every grid dimension's length equals the attached grid's element count.",
+        "Trusted: plain xarray as reference; uxarray's own operators are judged for values by other properties; the apply_ufunc family is a "
+        "recorded known finding, after which the result is re-wrapped so programs continue.",
+        "DESIGN.md section 6, C10",
+    ),
     "C11": (
         "property-based testing (Hypothesis): brute-force nearest-neighbour oracle over histories of tree requests",
         "Exploration: histories of 1-5 tree requests on one generated grid; each step draws tree type, element kind, one of the documented "
